@@ -61,7 +61,7 @@ CLAIMED = {
               "converted surface has, at p, MCNP's sense of the card at the auxiliary coordinates of p "
               "(transformed_card, transformed_gq, transformed_sq — the latter without the F14 sign flip of the "
               "untransformed path); a one-sheet cone whose axis ends up along ±x/±y/±z gets the apex-plane side that "
-              "accounts for the direction of the axis (flipped_cone_*, the F9 repair). The model is compared with the "
+              "accounts for the direction of the axis (flipped_cone_*, the F7 repair). The model is compared with the "
               "code on transformed cards of every non-torus mnemonic under identity / permutation / Pythagorean / "
               "generic rotations. TR-card spellings (3/5/6/9/12/13 entries, J placeholders, degrees), matrix "
               "completion (normalize_matrix*, adjust_matrix), TRCL on cells, implicit surfaces 1000·cell+surface, "
